@@ -196,6 +196,34 @@ def reuse_cases(draw):
 FILE_WORDS = {"haplotig": ("haplotigs",), "contaminant": ("contaminants",), "falseduplicate": ("falseduplicates",)}
 
 
+def body_mixed_unplaced(case, rec):
+    """
+    Unpainted Pretext scaffolds that hold pieces of both haplotypes' input scaffolds. Judged is only what the statement
+    says about unplaced scaffolds: one whose (input) name starts with a haplotype's name sits in that haplotype's assembly.
+    """
+    haps = [h.lower() for h in case.get("haps", [])]
+    try:
+        res = remap.run_api(case)
+    except Exception as e:  # noqa: BLE001
+        rec.note(case, False, {"error", "error_" + type(e).__name__})
+        return
+    primary = key_lc(getattr(res.build.scaffold_namer, "primary_haplotype", None)) if hasattr(res.build, "scaffold_namer") else None
+    mixed = any(len({next((h for h in haps if r[1].lower().startswith(h + "_")), None) for r in rows if r[0] == "F"}) > 1
+                for _pn, rows in case["map"] if not any("Painted" in r[5] for r in rows if r[0] == "F"))
+    rec.note(case, mixed, {"mixed_unplaced_scaffold"} if mixed else set())
+    for k, sc in res.all_scaffolds():
+        key = key_lc(k)
+        if key in ("haplotig", "contaminant", "falseduplicate") or sc.rank != 3:
+            continue
+        h = next((h_ for h_ in haps if sc.name.lower().startswith(h_ + "_")), None)
+        if h is None:
+            continue
+        if key not in (h, "primary"):
+            raise Violation(f"unplaced scaffold {sc.name} (name starts with haplotype {h}) was put into assembly {key!r}")
+        if key == "primary" and primary not in (None, "none") and primary != h:
+            raise Violation(f"unplaced scaffold {sc.name} (haplotype {h}) sits in the Primary assembly although the primary haplotype is {primary}")
+
+
 def body_cli(case, rec):
     classes = {"cli", "two_haplotypes" if case.get("haps") else "single_haplotype"}
     d = remap.scratch_dir("vf-c09-")
@@ -267,6 +295,10 @@ def body_cli(case, rec):
 SUBS = [
     Sub("api", kind="hyp", strategy=lambda: st.builds(lambda c, k: dict(c, retagged_after_review=True) if k == 0 else c, gen.tagged_case(), st.integers(0, 5)), body=body_api,
         budget={"quick": 16000, "thorough": 300000}, desc="dict returned by assemblies_with_scaffolds_fused vs expected destination per piece"),
+    Sub("slivers", kind="hyp", strategy=lambda: gen.tagged_case(slivers=True, max_scaffolds=4, max_contigs=6, piece_tag_weight=3, unloc_weight=50), body=body_api,
+        budget={"quick": 6000, "thorough": 100000}, desc="fractional texels, many cuts near contig ends, every third piece tagged: contigs shared by two or three pieces"),
+    Sub("mixed_unplaced", kind="hyp", strategy=lambda: gen.tagged_case(two_haplotypes=True, primary_mode=False, mixed_unplaced=True, max_scaffolds=5, max_contigs=3, group_sizes=[2, 3, 2, 1]), body=body_mixed_unplaced,
+        budget={"quick": 4000, "thorough": 60000}, desc="unpainted Pretext scaffolds mixing pieces of both haplotypes: an unplaced output scaffold sits in the assembly of the haplotype its name starts with"),
     Sub("reuse", kind="hyp", strategy=reuse_cases, body=body_reuse,
         budget={"quick": 4000, "thorough": 60000}, desc="the same IndexedAssembly object remapped twice (first in Target mode with scaffolds absent, then with the case's map): the second result is judged"),
     Sub("cli_primary", kind="hyp", strategy=lambda: gen.tagged_case(max_scaffolds=6, max_contigs=4, two_haplotypes=True, primary_mode=True, piece_tag_weight=3, unprefixed_in_primary=True), body=body_cli,
